@@ -66,6 +66,15 @@ class COFF(BinFormat):
         return self.__file
 
     def __init__(self, f):
+        try:
+            self.__load(f)
+        except (COFFError, StructureError):
+            raise
+        except Exception as e:
+            # malformed content is reported with the format's own error type
+            raise COFFError("malformed COFF file (%s: %s)" % (type(e).__name__, e))
+
+    def __load(self, f):
         self.__file = f
         self.Fhdr = FILEHDR(f)
         offset = self.Fhdr.size()
